@@ -1,6 +1,8 @@
 """C04 - replies affect only the client instance they were asked about (DESIGN 5/C04).
 State form: a stray reply (stale serial, malformed tag, unknown or not-awaited service) produces no output
-and leaves the *unprojected* state dump (serials, counters included) unchanged, in every reachable state."""
+and leaves the *unprojected* state dump (serials, counters included) unchanged, in every reachable state.
+Serial sweep: the same stale-tag probes when the live instance is the n-th announcement of the daemon's life, for a
+boundary list of n up to 65537 (the searches abstract serial numbers to ranks; this covers what that cannot see)."""
 from . import pcommon
 NEED = ('stray-old', 'stray-malformed', 'stray-ghost', 'stray-notowed', 'reannounce-live', 'withdraw-while-owed')
 
@@ -8,6 +10,6 @@ def plan(tier):
     return pcommon.plan_solo(tier, which=('hurry',)) if tier == 'quick' else pcommon.plan_solo(tier)
 
 def main(tier):
-    return pcommon.run_plan('C04', tier, plan(tier), ('C04.',), NEED)
+    return pcommon.run_plan('C04', tier, plan(tier), ('C04.',), NEED, extra_cov=lambda run: pcommon.serial_sweep(run, ('C04.',)))
 
 replay = pcommon.replay
